@@ -22,7 +22,7 @@ vars == <<faults, stage, outcome>>
 Lib == {"Document", "FileError", "FileFormatError", "UnsupportedError"}
 ContainerFaults == {"missing", "wrong-suffix", "truncated-0", "truncated-local-header", "truncated-in-member", "truncated-central-dir",
                     "truncated-end-record", "bad-plist", "missing-plist", "encrypted", "no-objects"}
-MemberFaults == {"crc", "empty", "short", "cut-at-chunk", "cut-off-chunk", "marker", "len-long", "len-short", "bad-snappy", "bad-varint",
+MemberFaults == {"crc", "empty", "short", "cut-at-chunk", "cut-off-chunk", "trailing", "marker", "len-long", "len-short", "bad-snappy", "bad-varint",
                  "bad-archive-info", "unknown-type"}
 AllFaults == [kind : ContainerFaults, at : {0}] \cup [kind : MemberFaults, at : Members]
 Stages == <<"exists", "suffix", "container", "plist", "encrypted">> \o [i \in 1..Cardinality(Members) |-> <<"member", i>>] \o <<"init">>
@@ -38,7 +38,7 @@ Effect(f) ==
     [] f.kind = "crc" -> (IF Mode = "pinned" THEN "Other" ELSE "FileFormatError")
     [] f.kind = "empty" -> (IF Mode = "pinned" THEN "Other" ELSE "pass")
     [] f.kind = "short" -> (IF Mode = "pinned" THEN "Other" ELSE "pass")
-    [] f.kind \in {"marker", "len-long", "len-short", "cut-at-chunk", "cut-off-chunk"} -> "pass"   \* the sniffer says "not an archive" (marker, or the
+    [] f.kind \in {"marker", "len-long", "len-short", "cut-at-chunk", "cut-off-chunk", "trailing"} -> "pass"   \* the sniffer says "not an archive" (marker, or the
                                                                             \* chunk lengths no longer add up to the file length): stored as a blob
     [] f.kind \in {"bad-snappy", "bad-varint", "bad-archive-info", "unknown-type"} -> "FileFormatError"
 StageOf(f) == CASE f.kind \in {"missing"} -> 1 [] f.kind = "wrong-suffix" -> 2
